@@ -200,8 +200,17 @@ func init() {
 		return nil
 	}
 	// ---------- sync.Pool ----------
+	// Get may hand back any object that was Put before (the real pool may also have dropped it): both are explored
 	intrinsics["(*sync.Pool).Get"] = func(m *Machine, fr *frame, a []Value) Value {
 		p := a[0].(*Value)
+		// (reuse is modelled for the pools of the code under test only; the standard library's own pools always allocate)
+		if items := m.pools[p]; len(items) > 0 && m.callerInRepo(fr) {
+			if m.decideLazy("pool", func() []int { return []int{0, 1} }) == 1 {
+				it := items[len(items)-1]
+				m.pools[p] = items[:len(items)-1]
+				return it
+			}
+		}
 		st := (*p).(Struct)
 		newFn := st[len(st)-1]
 		if newFn == nil {
@@ -209,7 +218,17 @@ func init() {
 		}
 		return m.call(fr, 0, newFn, nil)
 	}
-	intrinsics["(*sync.Pool).Put"] = func(m *Machine, fr *frame, a []Value) Value { return nil }
+	intrinsics["(*sync.Pool).Put"] = func(m *Machine, fr *frame, a []Value) Value {
+		p := a[0].(*Value)
+		if !m.callerInRepo(fr) {
+			return nil
+		}
+		if m.pools == nil {
+			m.pools = map[*Value][]Value{}
+		}
+		m.pools[p] = append(m.pools[p], a[1])
+		return nil
+	}
 
 	// ---------- sync/atomic ----------
 	atomicLoad := func(m *Machine, fr *frame, a []Value) Value {
@@ -761,3 +780,15 @@ func (m *Machine) sprintf(fr *frame, format string, args []Value) *Str {
 }
 
 var _ = ssa.NaiveForm
+
+// callerInRepo: the intrinsic was called directly from code of the repository under test (or a harness).
+func (m *Machine) callerInRepo(fr *frame) bool {
+	if fr == nil || fr.caller == nil || fr.caller.fn == nil {
+		return false
+	}
+	f := fr.caller.fn
+	for f.Parent() != nil {
+		f = f.Parent()
+	}
+	return f.Pkg != nil && strings.HasPrefix(f.Pkg.Pkg.Path(), "github.com/basecamp/kamal-proxy")
+}
